@@ -198,7 +198,10 @@ impl G<'_> {
                 }
                 2 => self.put("\n"),
                 3 => self.put("  "),
-                4 => self.put("/* c */"),
+                4 => {
+                    let c = self.r.pick(&["/* c */", "/* c */", "/**/", "/*/ c */", "/*/*/", "/*// x //*/", "/* ' \" ( */", "/***/"]);
+                    self.put(c)
+                }
                 _ => {
                     if self.cfg.unicode {
                         self.put("/*é\n*/")
@@ -562,9 +565,10 @@ impl G<'_> {
         let start = self.pos();
         let mut unq = String::new();
         let mut escaped = false;
+        let mut amp_last = false;
         let n = self.r.below(6);
         for _ in 0..n {
-            match self.r.below(12) {
+            match self.r.below(13) {
                 0 => {
                     let e = self.r.pick(&["%'", "%\"", "%%", "%(", "%)"]);
                     self.put(e);
@@ -609,12 +613,35 @@ impl G<'_> {
                     self.put(" ");
                     unq.push_str("% ");
                 }
+                9 => {
+                    // a lone '&' (not a macro variable) followed by a paren group, a %-quoted
+                    // paren, a blank, or the closing paren
+                    let t = self.r.pick(&["p&(y)", "q& ", "r&%)", "s&&(", "t&"]);
+                    if t == "s&&(" {
+                        self.put("s&&(z)");
+                        unq.push_str("s&&(z)");
+                    } else if t == "t&" {
+                        amp_last = true;
+                    } else {
+                        self.put(t);
+                        if t == "r&%)" {
+                            unq.push_str("r&)");
+                            escaped = true;
+                        } else {
+                            unq.push_str(t);
+                        }
+                    }
+                }
                 _ => {
                     let w = self.word();
                     self.put(w);
                     unq.push_str(w);
                 }
             }
+        }
+        if amp_last {
+            self.put("t&");
+            unq.push_str("t&");
         }
         let end = self.pos();
         if end > start {
@@ -1083,7 +1110,7 @@ impl G<'_> {
         self.put("\n");
         for _ in 0..n {
             let line = if four {
-                self.r.pick(&["1 2 3", "a;b", "x;;;y", "'unbalanced", "%let x=1;", "é ж", "/* not a comment", "&a %b"])
+                self.r.pick(&["1 2 3", "a;b", "x;;;y", "'unbalanced", "%let x=1;", "é ж", "/* not a comment", "&a %b", "a;é", "b;;€", "c;😀", "d;xyé", ";;;ж", "e; €"])
             } else {
                 self.r.pick(&["1 2 3", "abc def", "'unbalanced", "%let x=1", "é ж", "/* not a comment", "&a %b", "* star"])
             };
@@ -1645,7 +1672,7 @@ impl G<'_> {
             5 => self.put_stmt(),
             6 => {
                 let start = self.pos();
-                { let t__ = self.r.pick(&["/* c */", "/* a;b */", "/**/", "/* 'q */"]); self.put(t__) };
+                { let t__ = self.r.pick(&["/* c */", "/* a;b */", "/**/", "/* 'q */", "/*/ c */", "/*/*/", "/*/ ' ( */"]); self.put(t__) };
                 let end = self.pos();
                 self.p.marks.push(Mark::Insig { start, end, ctx: "statement-comment" });
             }
